@@ -17,7 +17,7 @@ func init() {
 		Trusted: []string{"go/ssa", "package initialisation order of the Go runtime"},
 	})
 	register(&Prop{
-		ID:    "C15",
+		ID: "C15",
 		Rules: []*Rule{rReport, rReverse, rFuncName, scoped(rWalkMulti, "the report visitor", func(_ *core.Ctx, k string) bool { return strings.Contains(k, "visitAllMulti") }), rStackSlot, rStackParse, scoped(rStackEmpty, "the frame parser", func(_ *core.Ctx, k string) bool { return strings.Contains(k, "parsePrintedStack:") }), scoped(rOneParser, "GetReportableStackTrace", func(_ *core.Ctx, k string) bool { return containsAny(k, "GetReportableStackTrace", "convertPkgStack") }), rEffectReport, {Name: "R-TAINT/S5", Doc: "the S5 sub-class of R-TAINT: provenance of every value written into the Sentry message, exceptions and extras", Run: func(c *core.Ctx) { runTaintFiltered(c, func(s *Sink) bool { return s.Class == "S5" }) }},
 			{Name: "R-LOOP-EXITS", Doc: rLoopExits.Doc, Run: func(c *core.Ctx) { runLoopExits(c, map[string]bool{"report.visitAllMulti": true}) }}},
 		Explain: "Decides: nil gives (nil, nil); the layer walk visits every node of the tree; stacks and safe details are collected in lock-step per node; every exception's module is the error's domain; the message is laid out source location / redacted verbose rendering / composition; the 'error types' extra is the per-layer buffer; the stack re-parsing covers the same type keys as the one-line source; provenance of every event field (S5). " +
@@ -25,16 +25,22 @@ func init() {
 		Trusted: []string{"go/ssa", "sentry-go"},
 	})
 	register(&Prop{
-		ID:    "C20",
+		ID: "C20",
 		Rules: []*Rule{rGrpcFlow, scoped(rCodeGetter, "the gRPC code accessor", func(_ *core.Ctx, k string) bool { return strings.Contains(k, "GetGrpcCode") }), {Name: "R-CODEC", Doc: rCodec.Doc + " (restricted to the gRPC code wrapper and the gRPC status types)", Run: func(c *core.Ctx) {
-			runCodec(c, func(cp *codecPair) bool { return strings.Contains(cp.Name, "extgrpc") || strings.Contains(cp.Name, "status.") })
+			runCodec(c, func(cp *codecPair) bool {
+				return strings.Contains(cp.Name, "extgrpc") || strings.Contains(cp.Name, "status.")
+			})
 		}}},
 		Explain: "Decides the value flow through both interceptors (which value is inspected, encoded, returned on each edge) and slot agreement for withGrpcCode. NOT decided: equality with the direct EncodeError/DecodeError path (protobuf Any round trip and the gRPC runtime are outside the analysis).",
 		Trusted: []string{"go/ssa", "gogo/status, grpc"},
 	})
 	register(&Prop{
-		ID:    "C19",
-		Rules: []*Rule{scoped(rOrder, "the hint/detail/link/tag/safe-detail accessors", func(_ *core.Ctx, k string) bool { return !strings.Contains(k, "GetOneLineSource") }), rHintProviders, rDedup, rFlattenSep, rGuardField, scoped(rAlwaysWraps, "the hint/detail/link/key/tag/safe-detail constructors", func(_ *core.Ctx, k string) bool { return containsAny(k, "WithHint", "WithDetail", "WithIssueLink", "WithTelemetry", "WithContextTags", "WithSafeDetails", "UnimplementedError") }), scoped(rStdIdentity, "the accessor packages", func(_ *core.Ctx, k string) bool { return containsAny(k, "hintdetail.", "issuelink.", "telemetrykeys.", "contexttags.", "safedetails.", "errbase.GetAllSafeDetails") }), {Name: "R-LOOP-EXITS", Doc: rLoopExits.Doc, Run: func(c *core.Ctx) {
+		ID: "C19",
+		Rules: []*Rule{scoped(rOrder, "the hint/detail/link/tag/safe-detail accessors", func(_ *core.Ctx, k string) bool { return !strings.Contains(k, "GetOneLineSource") }), rHintProviders, rDedup, rFlattenSep, rGuardField, scoped(rAlwaysWraps, "the hint/detail/link/key/tag/safe-detail constructors", func(_ *core.Ctx, k string) bool {
+			return containsAny(k, "WithHint", "WithDetail", "WithIssueLink", "WithTelemetry", "WithContextTags", "WithSafeDetails", "UnimplementedError")
+		}), scoped(rStdIdentity, "the accessor packages", func(_ *core.Ctx, k string) bool {
+			return containsAny(k, "hintdetail.", "issuelink.", "telemetrykeys.", "contexttags.", "safedetails.", "errbase.GetAllSafeDetails")
+		}), {Name: "R-LOOP-EXITS", Doc: rLoopExits.Doc, Run: func(c *core.Ctx) {
 			runLoopExits(c, map[string]bool{"telemetrykeys.GetTelemetryKeys": true, "issuelink.GetAllIssueLinks": true, "contexttags.GetContextTags": true, "errbase.GetAllSafeDetails": true})
 		}}},
 		Explain: "Decides the structural side of the aggregation contract: the standard-hint providers exist and use the exported texts; hints/details accessors descend before they emit (innermost-first) while links/tags/safe-details append from the outermost layer; hints are appended only on the not-seen edge of a set keyed by the hint, details are not de-duplicated; both Flatten functions use the documented separator; optional members are emitted under a test of that very member; the walking loops have no early exit (every layer and every key is seen). " +
@@ -42,8 +48,10 @@ func init() {
 		Trusted: []string{"go/ssa"},
 	})
 	register(&Prop{
-		ID:    "C12",
-		Rules: []*Rule{rRetain, rErrRefs, rHideKeep, rLoopAlias, scoped(rStdIdentity, "formatting and reporting code", func(_ *core.Ctx, k string) bool { return containsAny(k, "errutil.", "errbase.", "report.", "withstack.", "safedetails.", "barriers.", "secondary.") }), scoped(rCodec, "clauses A4-A6: every safe-carrying field is written, restored and read", func(_ *core.Ctx, k string) bool { return containsAny(k, "] A4 ", "] A5 ", "] A6 ") })},
+		ID: "C12",
+		Rules: []*Rule{rRetain, rErrRefs, rHideKeep, rLoopAlias, scoped(rStdIdentity, "formatting and reporting code", func(_ *core.Ctx, k string) bool {
+			return containsAny(k, "errutil.", "errbase.", "report.", "withstack.", "safedetails.", "barriers.", "secondary.")
+		}), scoped(rCodec, "clauses A4-A6: every safe-carrying field is written, restored and read", func(_ *core.Ctx, k string) bool { return containsAny(k, "] A4 ", "] A5 ", "] A6 ") })},
 		Explain: "Decides that every input the library declares PII-free reaches a SAFE position (redact format string, redact.Safe argument, or a field handed out by SafeDetails()/printed as Safe) through every forwarding layer - so it is not redacted away; that captured error arguments are attached as secondary errors on every path; that content behind barriers/secondary errors is folded into SafeDetails() and printed; and (R-CODEC) that those fields have wire-slot agreement so they are still there after a hop. " +
 			"NOT decided: presence of a given token in the final report text (string-level), GetAllSafeDetails' per-layer walk beyond UnwrapOnce.",
 		Trusted: []string{"go/ssa", "the safe-input contract of DESIGN §4.5"},
@@ -84,14 +92,16 @@ func init() {
 		Trusted: []string{"go/ssa"},
 	})
 	register(&Prop{
-		ID:    "C07",
-		Rules: []*Rule{rHide, rHideKeep, rBarrierCtor, rWrapDual, rErrRefs, rFormatArg, rSecondaryAttach, scoped(rAlwaysWraps, "the barrier and secondary-error constructors", func(_ *core.Ctx, k string) bool { return containsAny(k, "Handled", "Opaque", "CombineErrors", "WithSecondaryError", "AssertionFailure", "AssertionError") })},
+		ID: "C07",
+		Rules: []*Rule{rHide, rHideKeep, rBarrierCtor, rWrapDual, rErrRefs, rFormatArg, rSecondaryAttach, scoped(rAlwaysWraps, "the barrier and secondary-error constructors", func(_ *core.Ctx, k string) bool {
+			return containsAny(k, "Handled", "Opaque", "CombineErrors", "WithSecondaryError", "AssertionFailure", "AssertionError")
+		})},
 		Explain: "Decides, for all compositions and after decoding (decoders rebuild the same types; opaque fallbacks keep the payload inside an Any), that the error stored behind a barrier or as a secondary error cannot reach any Return, call, comparison or store other than printing, encoding and the safe-details walk (so no Unwrap/Cause/Is/As/accessor can see it); that it stays printed in %+v and folded into SafeDetails(); that every constructor which hides a parameter never also exposes it; and that Cause()/Unwrap() of every wrapper return the same, visible, field. " +
 			"NOT decided: 'Handled keeps the hidden text exactly' (redact rendering = Error()), behaviour of foreign types embedded in the hidden content.",
 		Trusted: []string{"go/ssa"},
 	})
 	register(&Prop{
-		ID:    "C06",
+		ID: "C06",
 		Rules: []*Rule{rEsc, rBufFlag, rVerbDispatch, rRedactableOps, {Name: "R-TAINT/redactable", Doc: "the S3 sub-class of R-TAINT that concerns well-formedness: every conversion of a plain string/[]byte to redact.RedactableString/RedactableBytes takes a value that was BUILT as a redactable string (redact.Sprint*/Redact(), a typed RedactableString input, or the wire slot an encoder fills from one) - never a merely safe plain string, whose marker runes would not be escaped",
 			Run: func(c *core.Ctx) { runTaintFiltered(c, func(s *Sink) bool { return s.Mode == "redactable" }) }}},
 		Explain: "Decides the structural half of well-formedness and of the refusal clause: unsafe layer text reaches the redactable buffer only escaped-and-enclosed (R-ESC); the 'already redactable' flag is set only for text produced by the safe printer (R-BUFFLAG); plain strings are never re-labelled as redactable without escaping; the verb dispatch refuses %q/%x/%X/%#v under redactable output and honours width/precision in every case (exhaustive evaluation of the guard predicates). " +
@@ -107,15 +117,21 @@ func init() {
 		Trusted: []string{"go/ssa"},
 	})
 	register(&Prop{
-		ID:    "C14",
-		Rules: []*Rule{rProtocol, rWrapDual, rStdIdentity, rUnwrapAll, rWalkCurrent, scoped(rWalkMulti, "Is, IsAny, As", func(_ *core.Ctx, k string) bool { return containsAny(k, "markers.Is", "errutil.As", "is a leaf for UnwrapOnce") }), forwardScoped("Is", "IsAny", "As", "If", "HasType", "HasInterface", "Unwrap", "UnwrapOnce", "UnwrapAll", "UnwrapMulti", "Cause")},
+		ID: "C14",
+		Rules: []*Rule{rProtocol, rWrapDual, rStdIdentity, rUnwrapAll, rWalkCurrent, scoped(rWalkMulti, "Is, IsAny, As", func(_ *core.Ctx, k string) bool {
+			return containsAny(k, "markers.Is", "errutil.As", "is a leaf for UnwrapOnce")
+		}), forwardScoped("Is", "IsAny", "As", "If", "HasType", "HasInterface", "Unwrap", "UnwrapOnce", "UnwrapAll", "UnwrapMulti", "Cause")},
 		Explain: "Decides the structural side of drop-in compatibility: the library probes exactly the standard protocol methods (Is/As/Unwrap/Unwrap []error/Cause) with their exact signatures and precedence; every library wrapper implements both Cause() and Unwrap() over the same field so stdlib and pkg/errors traverse library chains; Is/As recurse into multi-cause branches in order; the root API forwards to the right implementation with parameters in order. " +
 			"NOT decided: differential agreement with errors.Is/As/pkg-errors.Cause on all inputs.",
 		Trusted: []string{"go/ssa", "the standard library's own Is/As/Unwrap semantics"},
 	})
 	register(&Prop{
-		ID:    "C13",
-		Rules: []*Rule{rWalkMulti, rTreeRec, scoped(rOpaque, "the causes of multi-cause nodes", func(_ *core.Ctx, k string) bool { return containsAny(k, "causes", "MultierrorCauses", "opaqueLeafCauses") }), rOwnedBranches, rLoopAlias, {Name: "R-LOOP-EXITS", Doc: rLoopExits.Doc, Run: func(c *core.Ctx) { runLoopExits(c, map[string]bool{"markers.Is": true, "markers.IsAny": true, "report.visitAllMulti": true}) }}},
+		ID: "C13",
+		Rules: []*Rule{rWalkMulti, rTreeRec, scoped(rOpaque, "the causes of multi-cause nodes", func(_ *core.Ctx, k string) bool {
+			return containsAny(k, "causes", "MultierrorCauses", "opaqueLeafCauses")
+		}), rOwnedBranches, rLoopAlias, {Name: "R-LOOP-EXITS", Doc: rLoopExits.Doc, Run: func(c *core.Ctx) {
+			runLoopExits(c, map[string]bool{"markers.Is": true, "markers.IsAny": true, "report.visitAllMulti": true})
+		}}},
 		Explain: "Decides that every tree walker (Is, IsAny, As, formatter, report visitor, encoder) applies itself to each branch of every chain node's UnwrapMulti in forward order, and that multi-cause types are leaves for Unwrap/UnwrapOnce. " +
 			"NOT decided: 'exactly when' (no false positives of the search), Join dropping nils / nil result, Error() = newline-joined branch texts.",
 		Trusted: []string{"go/ssa"},
@@ -138,8 +154,10 @@ func init() {
 		Trusted: []string{"go/ssa", "reflect.Type.Comparable semantics", "nilness lattice"},
 	})
 	register(&Prop{
-		ID:    "C16",
-		Rules: []*Rule{rDepth, rMemo, rFuncName, scoped(rStackEmpty, "the one-line source parser", func(_ *core.Ctx, k string) bool { return strings.Contains(k, "getOneLineSourceFromPrintedStack") }), rOrderOneLine, scoped(rOneParser, "GetOneLineSource", func(_ *core.Ctx, k string) bool { return containsAny(k, "GetOneLineSource", "getOneLineSourceFromPkgStack") })},
+		ID: "C16",
+		Rules: []*Rule{rDepth, rMemo, rFuncName, scoped(rStackEmpty, "the one-line source parser", func(_ *core.Ctx, k string) bool { return strings.Contains(k, "getOneLineSourceFromPrintedStack") }), rOrderOneLine, scoped(rOneParser, "GetOneLineSource", func(_ *core.Ctx, k string) bool {
+			return containsAny(k, "GetOneLineSource", "getOneLineSourceFromPkgStack")
+		})},
 		Explain: "Decides the depth arithmetic of every exported stack-capturing or domain-computing function of the root package, errutil, withstack and domains, for ALL depths and all forwarding paths at once (affine equation S = 1 [+ depth]). " +
 			"NOT decided: GetOneLineSource's text parsing; the Go runtime's skip semantics (inlined frames) are trusted.",
 		Trusted: []string{"go/ssa", "semantics of runtime.Callers(skip)/runtime.Caller(skip) incl. inlined frames"},
